@@ -379,7 +379,9 @@ func (a *Allocation) WriteTo(p []byte, addr net.Addr) (n int, err error) {
 const rtpMTU = 1600
 
 func (a *Allocation) packetConnHandler(manager *Manager) {
-	buffer := make([]byte, rtpMTU)
+	// One spare byte: a datagram larger than rtpMTU fills it and is dropped below,
+	// instead of being relayed silently cut to the buffer size.
+	buffer := make([]byte, rtpMTU+1)
 
 	for {
 		n, srcAddr, err := a.relayPacketConn.ReadFrom(buffer)
@@ -387,6 +389,12 @@ func (a *Allocation) packetConnHandler(manager *Manager) {
 			manager.DeleteAllocation(a.fiveTuple)
 
 			return
+		}
+
+		if n > rtpMTU {
+			a.log.Warnf("Dropping datagram from %s: larger than %d bytes, cannot be relayed whole", srcAddr, rtpMTU)
+
+			continue
 		}
 
 		a.log.Debugf("Relay socket %s received %d bytes from %s",
